@@ -638,6 +638,10 @@ def evaluate(desc, disk, target):
         elif c.tool == "symlink":
             ex.outputs[c.outs[0]] = "@" + c.contents
             ex.kinds[c.outs[0]] = "symlink"
+        elif c.tool == "archive":
+            # `ar cr OUT inputs...` on a fresh file: exactly the inputs, in order, under their base names
+            ex.outputs[c.outs[0]] = "AR{" + ",".join(os.path.basename(n) + "=" + render_read(c, n) for n in c.ins if not is_virtual(n)) + "}"
+            ex.kinds[c.outs[0]] = "archive"
         memo[c.name] = payload
         ex.payload[c.name] = payload
 
@@ -667,7 +671,41 @@ def observe(sb, path, kind):
         return "DIR" if os.path.isdir(full) and not os.path.islink(full) else sb.lread(path)
     if kind == "symlink":
         return sb.lread(path)
+    if kind == "archive":
+        return read_archive(sb.p(path))
     return sb.read(path)
+
+
+def read_archive(full):
+    """Members of a System V `ar` archive in order: 'AR{name=contents,...}' (None if missing, '<not an archive>' otherwise)."""
+    try:
+        data = open(full, "rb").read()
+    except OSError:
+        return None
+    if not data.startswith(b"!<arch>\n"):
+        return "<not an archive>"
+    off, out, longnames = 8, [], b""
+    while off + 60 <= len(data):
+        h = data[off:off + 60]
+        name = h[:16].decode("latin-1").rstrip()
+        try:
+            size = int(h[48:58].decode("latin-1").strip())
+        except ValueError:
+            return "<not an archive>"
+        body = data[off + 60:off + 60 + size]
+        off += 60 + size + (size & 1)
+        if name == "/":            # symbol table
+            continue
+        if name == "//":           # long-name table
+            longnames = body
+            continue
+        if name.startswith("/") and name[1:].isdigit():
+            i = int(name[1:])
+            name = longnames[i:longnames.index(b"/\n", i)].decode("latin-1")
+        elif name.endswith("/"):
+            name = name[:-1]
+        out.append(name + "=" + body.decode("latin-1"))
+    return "AR{" + ",".join(out) + "}"
 
 
 # --------------------------------------------------------------------------
